@@ -145,6 +145,7 @@ mod verif_c08_table {
     // eight bytes at base + 8*i .. base + 8*i + 8 (symbolic slot, symbolic byte).
     //@ obligation C08 C08.PageTable_layout.entries_little_endian_in_index_order
     #[kani::proof]
+    #[kani::solver(minisat)] // measured: 20 s instead of 63 s with the default solver
     fn c08_table_bytes_little_endian() {
         let mut t = PageTable::new();
         let i: usize = kani::any();
@@ -244,6 +245,7 @@ mod verif_c08_table {
     //@ obligation C08 C08.PageTable_iter_mut.store_seen_by_index
     #[kani::proof]
     #[kani::unwind(513)]
+    #[kani::solver(minisat)] // measured: 45 s instead of 58 s with the default solver
     fn c08_table_iter_mut_store_seen() {
         let mut t = PageTable::new();
         let i: usize = kani::any();
@@ -370,24 +372,9 @@ mod verif_c08_table {
         );
     }
 
-    // quick-tier stand-in for (b): all words zero except one symbolic slot with a symbolic non-zero word.
-    // (The general harness above takes ~180 s.)
-    //@ obligation C08 C08.PageTable_is_empty.false_if_one_word_nonzero
-    #[kani::proof]
-    #[kani::unwind(513)]
-    fn c08_table_is_empty_false_if_one_nonzero() {
-        let mut t = PageTable::new();
-        let i: usize = kani::any();
-        kani::assume(i < 512);
-        let v: u64 = kani::any();
-        kani::assume(v != 0);
-        t.entries[i].entry = v;
-        kani::cover!(true, "c08_table_is_empty_false_if_one_nonzero: reachable");
-        assert!(
-            !t.is_empty(),
-            "C08.PageTable_is_empty.false_if_one_word_nonzero: one non-zero word makes the table non-empty"
-        );
-    }
+    // (No quick-tier stand-in for (b): with any symbolic word in the table the 512-fold unwinding of
+    // `all()` costs ~0.35 s per iteration whatever the shape of the table; measured 183 s with a
+    // single symbolic word in one of five concrete slots, 262 s with a symbolic slot index.)
 
     // new / zero / is_empty agree: zero() of any table gives an empty table.
     //@ obligation C08 C08.PageTable_zero.then_is_empty tier=thorough
@@ -404,7 +391,7 @@ mod verif_c08_table {
     }
 
     // Clone copies all 512 words (symbolic contents, symbolic slot).
-    //@ obligation C08 C08.PageTable_clone.same_words
+    //@ obligation C08 C08.PageTable_clone.same_words tier=thorough
     #[kani::proof]
     fn c08_table_clone_same_words() {
         let t = any_table();
